@@ -119,7 +119,7 @@ prop("C03", kind="sim", quick_runs=2400, thorough_s=900,
           "step replica == vi+1 as leaf sets (and as ordered-list order for DiffWithAtomic), every update/delete is checked for soundness and minimality "
           "against the harness's models of vi and vi+1, and Diff of equal trees must be empty; distinct = distinct (package, step outcome trace) hashes; "
           "non-trivial = at least one step changed the tree",
-     fault_kinds=[],
+     fault_kinds=["diff_of_invalid_version_first", "failing_diff"],
      probes=["state_changes", "steps_with_deletes", "steps_with_two_or_more_deletes", "steps_with_atomic_notifications", "ordered_list_order_changed",
              "list_entry_removed", "diff_of_equal_trees", "opt:none", "opt:single", "opt:shadow", "opt:ignoreadd", "mode:plain", "mode:atomic"],
      assumptions=["excluded with reason: trees containing keyless lists (Diff documents them as unsupported) and ordered lists nested in ordered lists "
